@@ -179,6 +179,7 @@ libNew(FileName fname, Bool rdOnly, FILE *f, Offset pos)
 	lib->name	= fnameCopy(fname);
 	lib->arent	= NULL;
 	lib->rdOnly	= rdOnly;
+	lib->wrOpen	= false;
 	lib->intLoaded	= false;
 	lib->idName	= NULL;
 	lib->file	= f;
@@ -232,7 +233,9 @@ libRead(FileName fname)
 Lib
 libWrite(FileName fname)
 {
-	return libNew(fname, false, fileWubOpen(fname), (Offset) 0);
+	Lib lib = libNew(fname, false, fileWubOpen(fname), (Offset) 0);
+	lib->wrOpen = true;
+	return lib;
 }
 
 /*
@@ -335,7 +338,13 @@ libClose(Lib lib)
 	else
 		libPutHeader(lib);
 
-	if (!(lib->rdOnly & 2)) fclose(lib->file);	
+	if (!(lib->rdOnly & 2)) {
+		Bool	failed = lib->wrOpen && ferror(lib->file) != 0;
+		if (fclose(lib->file) != 0 && lib->wrOpen) failed = true;
+		if (failed)
+			comsgFatal(NULL, ALDOR_F_CantWrite,
+				   fnameUnparseStatic(lib->name));
+	}
 	libUnRegister(lib);
 	fnameFree(lib->name);
 
